@@ -516,6 +516,8 @@ def run_task(param, acc):
         evs = events_B()
         wd = param[2]
         depth = (3 if acc.tier == 'quick' else 4) - (1 if wd is True else 0)
+        if wd == 'attach':
+            depth = 3          # (the attach-built view: same depth in both tiers)
         first = evs[param[1]]
         seen = set()
         r0 = RunB((first,), wd)
